@@ -176,6 +176,11 @@ func execLocal(op string) (res string) {
 			return "bad-op"
 		}
 		return execNegos(w[1], atoi(w[2]), w[3:])
+	case "negom":
+		if len(w) < 4 {
+			return "bad-op"
+		}
+		return execNegom(w[1], atoi(w[2]), atoi(w[3]), w[4:])
 	}
 	return "bad-op"
 }
